@@ -94,6 +94,17 @@ func RunShard(prop, tier string, seed uint64, shard, nshards int, out string) {
 		}
 		plan := e.Generate(prop, tier, seed, run)
 		res := safeExecute(e, plan, false)
+		if res.HarnessErr != "" {
+			// trouble inside the simulator's own set-up, not a verdict. Execution is a pure function
+			// of the plan, so the same trouble must show again; a run that goes through the second
+			// time met a transient condition of the host (counted, reported in the evidence)
+			first := res.HarnessErr
+			res = safeExecute(e, plan, false)
+			if res.HarnessErr == "" {
+				rep.Probes["harness_error_not_reproduced"]++
+				fmt.Fprintf(os.Stderr, "shard %d: run %d: harness error did not show again: %s\n", shard, run, first)
+			}
+		}
 		rep.Runs++
 		if res.Cases > 0 {
 			rep.Cases += res.Cases
